@@ -37,7 +37,7 @@ def pop (v : VS) (w : W) : VS × W × Option Elem :=
     let v1 := { v with len := v.len - 1 }
     match v1.read v1.len with
     | some e => (v1, w.moved e, some e)
-    | none => (v1, w.flag "pop read an uninitialised slot", none)
+    | none => (v1, w.flag "pop: read of an uninitialised slot", none)
 
 /-- vec.rs:1221; `none` = panicked (`index > len` or capacity overflow), the element is
 dropped by the unwinding -/
@@ -58,7 +58,7 @@ def remove (c : Cfg) (v : VS) (i : Nat) (w : W) : VS × W × Option Elem :=
   if ¬ i < len then (v, w, none)
   else
     match v.read i with
-    | none => (v, w.flag "remove read an uninitialised slot", none)
+    | none => (v, w.flag "remove: read of an uninitialised slot", none)
     | some ret =>
       let (v1, w) := v.copy c (i + 1) i (len - i - 1) w
       ({ v1 with len := len - 1 }, w.moved ret, some ret)
@@ -69,11 +69,11 @@ def swapRemove (c : Cfg) (v : VS) (i : Nat) (w : W) : VS × W × Option Elem :=
   if ¬ i < v.len then (v, w, none)
   else
     match v.read (v.len - 1) with
-    | none => (v, w.flag "swap_remove read an uninitialised slot", none)
+    | none => (v, w.flag "swap_remove: read of an uninitialised slot", none)
     | some last =>
       let v1 := { v with len := v.len - 1 }
       match v1.read i with
-      | none => (v1, w.flag "swap_remove read an uninitialised slot", none)
+      | none => (v1, w.flag "swap_remove: read of an uninitialised slot", none)
       | some old =>
         let (v2, w) := v1.write c i last w
         (v2, w.moved old, some old)
